@@ -121,6 +121,18 @@ CHECKS["C17"] = dict(
          "(a CrossHair artefact around ElementTree.iterparse closures is neutralised in the worker).",
     ref="DESIGN.md 5/C17")
 
+CHECKS["C08"] = dict(
+    technique=TECH + " - schema.iter_errors() on documents whose key/unique/keyref field values and ID/IDREF values are chosen by "
+                     "symbolic indices from pools of lexical variants (finite-choice tables), vs. the set semantics of XSD 3.11.4",
+    category="model_checking",
+    text="For each template (1-field key+keyref, 2-field unique, 2-field key+keyref, unique+keyref, key scoped under a repeated element, "
+         "ID/IDREF) and both XSD versions every table inside the bound (2-3 item rows, 1-2 reference rows, decimal field from "
+         "{absent,1,1.0,2,01}, boolean field from {absent,true,1[,false]}) is validated by the real code and compared with the reference: "
+         "duplicates among fully present tuples, key rows must be complete, fully present keyref tuples must match in value space, "
+         "partially absent tuples are outside the qualified node set.",
+    note="Finite-choice (certified exhaustive within the pools). Selector/field XPath fixed to child/attribute steps; >2 fields outside.",
+    ref="DESIGN.md 5/C08")
+
 NOT_APPLICABLE = {
     "C18": "quantifies over thread interleavings; no engine of this family here executes Python threads symbolically (CrossHair is "
            "single-threaded); see DESIGN.md section 6",
